@@ -703,6 +703,43 @@ func GenCase(prop string, seed uint64, thorough bool) *Case {
 			ops = append(ops, Op{K: "compact"}, Op{K: "measure", Slot: round, Ms: K})
 		}
 		c.Clients[0] = ops
+	} else if prop == "C07" && len(c.Clients) == 1 && r.p(0.08) {
+		// more than 256 version changes behind one pinned version: the
+		// reference tracker gives up delta processing for the pinned version
+		// and switches to full file references
+		ops := c.Clients[0]
+		if len(ops) > 40 {
+			ops = ops[:40]
+		}
+		for i := 0; i < 6; i++ {
+			ops = append(ops, Op{K: "iterrel", Slot: i})
+		}
+		c.Knobs.WriteBuffer = r.pick(64, 128, 256)
+		g.wb = c.Knobs.WriteBuffer
+		pin := g.iterOp("", 0, 6)
+		pin.Keep = true
+		ops = append(ops, pin)
+		second := r.p(0.5)
+		for i, n := 0, r.rng(280, 420); i < n; i++ {
+			g.nextID++
+			ops = append(ops, Op{K: "put", Key: g.anyKey(), Val: V{ID: g.nextID, Len: r.rng(100, 300)}})
+			if second && i == n/2 {
+				p2 := g.iterOp("", 1, 6)
+				p2.Keep = true
+				ops = append(ops, p2)
+			}
+			if r.p(0.03) {
+				ops = append(ops, Op{K: "iterstep", Slot: r.intn(2), Moves: g.moves(r.rng(1, 6))})
+			}
+		}
+		ops = append(ops, Op{K: "iterstep", Slot: 0, Moves: g.moves(r.rng(5, 40))}, Op{K: "iterstep", Slot: 1, Moves: g.moves(r.rng(1, 20))})
+		if r.p(0.5) {
+			ops = append(ops, Op{K: "iterrel", Slot: 1}, Op{K: "iterrel", Slot: 0})
+		} else {
+			ops = append(ops, Op{K: "iterrel", Slot: 0}, Op{K: "iterrel", Slot: 1})
+		}
+		ops = append(ops, Op{K: "settle"})
+		c.Clients[0] = ops
 	} else if prop == "C07" && r.p(0.3) {
 		// failed flushes/compactions: faults on table files only, so that
 		// every manifest commit that is attempted succeeds and the monitor's
